@@ -1,4 +1,8 @@
 //@file kiki/src/data/ast.rs mod=crate::data::ast
+//@[ imports
+use vstd::prelude::*;
+use crate::vx_gram::*;
+//@]
 #[derive(Clone, Debug)]
 pub struct File {
     pub items: Vec<FileItem>,
@@ -43,7 +47,11 @@ pub enum Fieldset {
 }
 
 impl Fieldset {
-    pub fn len(&self) -> usize {
+    pub fn len(&self) -> /*@[*/(r: /*@]*/usize/*@[*/)/*@]*/
+        //@[ C07 C17 Fieldset::len: length of the right-hand side
+        ensures r == fieldset_idents(*self).len(), r == fieldset_syms(*self).len(),
+        //@]
+    {
         match self {
             Fieldset::Empty => 0,
             Fieldset::Named(named) => named.fields.len(),
@@ -51,11 +59,20 @@ impl Fieldset {
         }
     }
 
-    pub fn is_empty(&self) -> bool {
+    pub fn is_empty(&self) -> /*@[*/(r: /*@]*/bool/*@[*/)/*@]*/
+        //@[ C07 Fieldset::is_empty
+        ensures r == (fieldset_idents(*self).len() == 0),
+        //@]
+    {
         self.len() == 0
     }
 
-    pub fn get_symbol_ident(&self, i: usize) -> &IdentOrTerminalIdent {
+    pub fn get_symbol_ident(&self, i: usize) -> /*@[*/(r: /*@]*/&IdentOrTerminalIdent/*@[*/)/*@]*/
+        //@[ C07 C17 Fieldset::get_symbol_ident: the i-th declared field symbol; in range only (no panic)
+        requires i < fieldset_idents(*self).len(),
+        ensures *r == fieldset_idents(*self)[i as int],
+        //@]
+    {
         match self {
             Fieldset::Empty => panic!("Called Fieldset::get_symbol_ident on Fieldset::Empty"),
             Fieldset::Named(named) => &named.fields[i].symbol,
@@ -116,7 +133,11 @@ impl TupleField {
 }
 
 impl TupleField {
-    pub fn symbol(&self) -> &IdentOrTerminalIdent {
+    pub fn symbol(&self) -> /*@[*/(r: /*@]*/&IdentOrTerminalIdent/*@[*/)/*@]*/
+        //@[ C17 TupleField::symbol
+        ensures *r == tuple_field_sym(*self),
+        //@]
+    {
         match self {
             TupleField::Used(symbol) => symbol,
             TupleField::Skipped(symbol) => symbol,
